@@ -2,7 +2,7 @@
 """keep_seed.py ID 'needs' 'caught-by' -- copy a verified seeded change into /verif/seeded/<ID>/"""
 import json, os, shutil, sys
 sid, needs, caught = sys.argv[1], sys.argv[2], sys.argv[3]
-prop = sid.split("-")[0]
+prop = sid[:3]
 src = "/tmp/seed/out_%s" % sid
 dst = "/verif/seeded/%s" % sid
 os.makedirs(dst, exist_ok=True)
